@@ -18,6 +18,17 @@ for l in open(sys.argv[1]):
         passed.add(e['Package']+'::'+e['Test'])
 missing=sorted(want-passed)
 print(f"stable_pass={len(want)} passed_now={len(passed)} missing={len(missing)}")
-for m in missing[:40]: print("  MISSING", m)
-sys.exit(1 if missing else 0)
+# load-sensitive e2e tests (watch mode, CLI timeouts): re-run what is missing once, alone
+import subprocess,re
+still=[]
+leaves=[m for m in missing if not any(o!=m and o.startswith(m+'/') for o in missing)]
+for m in leaves:
+    pkg,t=m.split('::',1)
+    rel=pkg.replace('oss.terrastruct.com/d2','').lstrip('/') or '.'
+    pat='/'.join('^'+re.escape(x)+'$' for x in t.split('/'))
+    r=subprocess.run(['go','test','-vet=off','-count=1','-run',pat,'./'+rel+'/'],capture_output=True,text=True)
+    if r.returncode!=0: still.append(m)
+    print("  RERUN", m, "ok" if r.returncode==0 else "FAIL")
+print(f"missing_after_rerun={len(still)}")
+sys.exit(1 if still else 0)
 PY
